@@ -474,6 +474,8 @@ class EndpointResponseHandlerGenerator:
                             type_service = UnifiedTypeService(self.schemas)
                             response_type = type_service.resolve_schema_type(resp_schema, context)
                             if self._should_use_cattrs_structure(response_type):
+                                # The primary response may not have needed cattrs, so import it here as well
+                                self._register_cattrs_import(context)
                                 deserialization_code = self._get_cattrs_deserialization_code(response_type, data_expr)
                                 writer.write_line(f"return {deserialization_code}")
                                 self._register_imports_for_type(response_type, context)
